@@ -6,7 +6,11 @@ import (
 	"github.com/paulmach/orb"
 )
 
-func readCollection(r io.Reader, order byteOrder, buf []byte) (orb.Collection, error) {
+func readCollection(r io.Reader, order byteOrder, buf []byte, depth int) (orb.Collection, error) {
+	if depth >= MaxCollectionDepth {
+		return nil, ErrNestingTooDeep
+	}
+
 	num, err := readUint32(r, order, buf[:4])
 	if err != nil {
 		return nil, err
@@ -19,7 +23,7 @@ func readCollection(r io.Reader, order byteOrder, buf []byte) (orb.Collection, e
 	}
 	result := make(orb.Collection, 0, alloc)
 
-	d := NewDecoder(r)
+	d := &Decoder{r: r, depth: depth + 1}
 	for i := 0; i < int(num); i++ {
 		geom, _, err := d.Decode()
 		if err != nil {
